@@ -1,6 +1,7 @@
 import WV.Proofs.C07_Inv
 import WV.Proofs.C07_Deadline
 import WV.Proofs.C07_Port
+import WV.Proofs.C07_Connect
 
 /-! "Cancels the rest": every connection whose negotiation is pending is tracked by the
 supervisor (by `InboundConnectionFactory._pending_connections` or by the outbound contender chained
@@ -22,6 +23,33 @@ structure TR (w : World) : Prop where
   t6 : ∀ i, w.result = .ok i → w.remaining = [] ∧ w.started = true
   /-- once `connect()` has fired — with a connection or with a failure — `_listener_d` has fired too -/
   t8 : w.result ≠ .pending → phC w.cont 0 ≠ some .listening
+  t9 : w.started = false → w.result = .pending
+  /-- once `connect()` has fired, every contender has fired or was never started: nothing that
+      `_connect` started outlives `connect()` -/
+  t11 : w.result ≠ .pending → ∀ k q, phC w.cont k = some q → isDone q = true ∨ q = .idle
+
+theorem T11_setDone {w : World} (k : Nat) (r : Option Err) (x : Nat)
+    (h : w.result ≠ .pending → ∀ k q, phC w.cont k = some q → isDone q = true ∨ q = .idle) :
+    w.result ≠ .pending → ∀ k' q, phC (setPhase w.cont k (.done r x)) k' = some q → isDone q = true ∨ q = .idle := by
+  intro hr k' q hq
+  simp only [phC_setPhase] at hq
+  by_cases hkk : k = k'
+  · subst hkk
+    simp only [if_true] at hq
+    cases hc : w.cont[k]? with
+    | none => rw [hc] at hq; cases hq
+    | some c => rw [hc] at hq; simp at hq; subst hq; exact Or.inl rfl
+  · simp only [hkk, if_false] at hq; exact h hr k' q hq
+
+theorem T11_setInactive {w : World} {k : Nat} {q0 : Phase} (p : Phase)
+    (h : w.result ≠ .pending → ∀ k q, phC w.cont k = some q → isDone q = true ∨ q = .idle)
+    (hq : phC w.cont k = some q0) (hq2 : isDone q0 = false) (hq4 : q0 ≠ .idle) :
+    w.result ≠ .pending → ∀ k' q, phC (setPhase w.cont k p) k' = some q → isDone q = true ∨ q = .idle := by
+  intro hr k' q hq'
+  exfalso
+  rcases h hr k q0 hq with h1 | h1
+  · rw [hq2] at h1; cases h1
+  · exact hq4 h1
 
 theorem maybeDone_TR {w : World} (h : TR w) (hs : w.started = true) : TR (maybeDone w) := by
   unfold maybeDone
@@ -31,7 +59,17 @@ theorem maybeDone_TR {w : World} (h : TR w) (hs : w.started = true) : TR (maybeD
     split
     · exact h
     · have hrem' : w.remaining = [] := by simpa using hrem
-      refine ⟨h.t0, h.t3, h.t4, h.t5a, h.t5b, h.t5d, ?_, ?_⟩
+      refine ⟨h.t0, h.t3, h.t4, h.t5a, h.t5b, h.t5d, ?_, ?_, (fun hs' => by rw [hs] at hs'; cases hs'), ?_⟩
+      rotate_right
+      · intro _ k q hq
+        have hk : k < w.cont.length := by
+          unfold phC at hq
+          cases hck : w.cont[k]? with
+          | none => rw [hck] at hq; cases hq
+          | some _ => exact (List.getElem?_eq_some_iff.mp hck).1
+        rcases h.t3 hs k hk with h' | ⟨_, p, h2, h3⟩
+        · rw [hrem'] at h'; cases h'
+        · rw [hq] at h2; cases h2; exact Or.inl h3
       · intro i _
         exact ⟨hrem', hs⟩
       · intro _ hl
@@ -51,7 +89,7 @@ theorem failCallbacks_TR {w : World} {k : Nat} (e : Err) (h : TR w) (hs : w.star
   refine maybeDone_TR ?_ ?_
   rotate_left
   · exact hs
-  refine ⟨h.t0, ?_, h.t4, h.t5a, h.t5b, h.t5d, ?_, h.t8⟩
+  refine ⟨h.t0, ?_, h.t4, h.t5a, h.t5b, h.t5d, ?_, h.t8, h.t9, h.t11⟩
   · intro _ j hj
     by_cases hjk : j = k
     · subst hjk; exact Or.inr hk
@@ -69,7 +107,7 @@ structure CanFire (w : World) (k : Nat) : Prop where
 
 theorem setDone_TR {w : World} {k : Nat} (r : Option Err) (x : Nat) (po : Bool) (h : TR w) (hc : CanFire w k) :
     TR { w with cont := setPhase w.cont k (.done r x), portOpen := po } := by
-  refine ⟨?_, ?_, ?_, h.t5a, ?_, ?_, h.t6, ?_⟩
+  refine ⟨?_, ?_, ?_, h.t5a, ?_, ?_, h.t6, ?_, h.t9, T11_setDone k r x h.t11⟩
   rotate_right
   · intro hr
     simp only [phC_setPhase]
@@ -165,7 +203,8 @@ theorem ConnShrink.notPend {w w' : World} (h : ConnShrink w w') {i : Nat} (hn : 
   exact hn ⟨c, hc, hp' hp⟩
 
 theorem TR_shrink {w w' : World} (h : TR w) (s : ConnShrink w w') : TR w' := by
-  refine ⟨?_, ?_, ?_, ?_, ?_, ?_, ?_, by rw [s.result, s.cont]; exact h.t8⟩
+  refine ⟨?_, ?_, ?_, ?_, ?_, ?_, ?_, by rw [s.result, s.cont]; exact h.t8,
+    by rw [s.started, s.result]; exact h.t9, by rw [s.result, s.cont]; exact h.t11⟩
   · rw [s.started, s.cont]; exact h.t0
   · rw [s.started, s.cont, s.remaining]; exact h.t3
   · rw [s.fPending, s.cont]; exact h.t4
@@ -233,7 +272,7 @@ theorem shutdown_TR {w : World} (h : TR w) :
   obtain ⟨s, n⟩ := foldl_cancel w.fPending w
   have h1 := TR_shrink h s
   refine ⟨?_, rfl, s.cont, s.started, s.conns⟩
-  refine ⟨h1.t0, h1.t3, Or.inl rfl, ?_, h1.t5b, h1.t5d, h1.t6, h1.t8⟩
+  refine ⟨h1.t0, h1.t3, Or.inl rfl, ?_, h1.t5b, h1.t5d, h1.t6, h1.t8, h1.t9, h1.t11⟩
   intro i c hc hp ho
   exfalso
   have := h1.t5a i c hc hp ho
@@ -299,7 +338,7 @@ theorem okCallbacks_TR {w : World} {k : Nat} (i : Nat) (h : TR w) (hs : w.starte
     TR (okCallbacks w k i) := by
   unfold okCallbacks
   have h1 : TR { w with remaining := w.remaining.erase k, haveWinner := true, firstSuccess := some i } := by
-    refine ⟨h.t0, ?_, h.t4, h.t5a, h.t5b, h.t5d, ?_, h.t8⟩
+    refine ⟨h.t0, ?_, h.t4, h.t5a, h.t5b, h.t5d, ?_, h.t8, h.t9, h.t11⟩
     · intro _ j hj
       by_cases hjk : j = k
       · subst hjk; exact Or.inr hk
@@ -359,7 +398,7 @@ theorem negFired_TR {w : World} {i : Nat} (r : Option Err) (h : TR w) (hn : ¬ p
     split
     · rename_i ho
       have h1 : TR { w with fPending := w.fPending.erase i } := by
-        refine ⟨h.t0, h.t3, ?_, ?_, h.t5b, h.t5d, h.t6, h.t8⟩
+        refine ⟨h.t0, h.t3, ?_, ?_, h.t5b, h.t5d, h.t6, h.t8, h.t9, h.t11⟩
         · rcases h.t4 with h' | h'
           · exact Or.inl (by simp [h'])
           · exact Or.inr h'
@@ -464,14 +503,14 @@ theorem evLost_TR {w : World} (h : TR w) (i : Nat) : TR (evLost w i) := by
 /-- a contender that nothing depends on (not listening, not negotiating, not done) may move on -/
 theorem TR_setPhase_inactive {w : World} {k : Nat} {q : Phase} (p : Phase) (h : TR w)
     (hq : phC w.cont k = some q) (hq1 : ∀ i, q ≠ .negotiating i) (hq2 : isDone q = false) (hq3 : q ≠ .listening)
-    (hp : p ≠ .listening) :
+    (hp : p ≠ .listening) (hq4 : q ≠ .idle) :
     TR { w with cont := setPhase w.cont k p } := by
   have hno : ∀ i c, w.conns i = some c → c.owner = some k → False := by
     intro i c hc ho
     rcases h.t5d i c k hc ho with hd | ⟨p', hd, hdone⟩
     · rw [hq] at hd; simp at hd; exact hq1 i hd
     · rw [hq] at hd; simp at hd; subst hd; rw [hq2] at hdone; cases hdone
-  refine ⟨?_, ?_, ?_, h.t5a, ?_, ?_, h.t6, ?_⟩
+  refine ⟨?_, ?_, ?_, h.t5a, ?_, ?_, h.t6, ?_, h.t9, T11_setInactive p h.t11 hq hq2 hq4⟩
   rotate_right
   · intro hr
     simp only [phC_setPhase]
@@ -535,7 +574,7 @@ theorem applyCtx_TR_new {w2 : World} {i : Nat} {x : Ctx} (h : TR w2) (hfree : w2
     (hok : x.fired = some none → x.c.negD = .ok)
     (hno : ∀ e, x.fired ≠ some (some e)) : TR (applyCtx w2 i x) := by
   have h1 : TR { (w2.setConn i x.c) with winner := x.winner } := by
-    refine ⟨h.t0, h.t3, h.t4, ?_, ?_, ?_, h.t6, h.t8⟩
+    refine ⟨h.t0, h.t3, h.t4, ?_, ?_, ?_, h.t6, h.t8, h.t9, h.t11⟩
     · intro j cj hj hp ho
       simp only [World.setConn] at hj
       by_cases hji : j = i
@@ -582,7 +621,7 @@ theorem evInbound_TR {w : World} (hI : WInv w) (hP : PortInv w) (h : TR w) {p : 
     · exact hI.bound w.n (Nat.le_refl _)
     · intro _; simp
     · intro k hk'; rw [ho] at hk'; cases hk'
-    · refine ⟨h.t0, h.t3, Or.inr hph, ?_, h.t5b, h.t5d, h.t6, h.t8⟩
+    · refine ⟨h.t0, h.t3, Or.inr hph, ?_, h.t5b, h.t5d, h.t6, h.t8, h.t9, h.t11⟩
       intro j cj hj hp' hoj
       exact List.mem_append_left _ (h.t5a j cj hj hp' hoj)
   · cases hp
@@ -596,7 +635,7 @@ theorem addConn_TR_out {w : World} (hI : WInv w) (h : TR w) (rh : Option Bytes) 
   obtain ⟨ho, _, hok, hno⟩ := startNeg_track (cfg := w.cfg) (w0 := w.winner) (i := w.n) rh (some k)
     (w.now + Gen.Transit.TIMEOUT_s, w.seq) hw
   refine applyCtx_TR_new ?_ ?_ ?_ ?_ hok hno
-  · exact TR_shrink (TR_setPhase_inactive (.negotiating w.n) h hq (by intro i; simp) rfl (by simp) (by simp))
+  · exact TR_shrink (TR_setPhase_inactive (.negotiating w.n) h hq (by intro i; simp) rfl (by simp) (by simp) (by simp))
       (ConnShrink.of_eq rfl rfl rfl rfl rfl rfl)
   · exact hI.bound w.n (Nat.le_refl _)
   · intro hn; rw [ho] at hn; cases hn
@@ -645,7 +684,8 @@ theorem attach_TR (w : World) (k : Nat) (h : TR w) (hs : w.started = true) :
   · exact h
   · rename_i c hc
     have h1 : TR { w with cont := w.cont.modify k fun c => { c with attached := true } } := by
-      refine ⟨?_, ?_, ?_, h.t5a, ?_, ?_, h.t6, by simpa only [phC_attach] using h.t8⟩
+      refine ⟨?_, ?_, ?_, h.t5a, ?_, ?_, h.t6, by simpa only [phC_attach] using h.t8, h.t9,
+        by simpa only [phC_attach] using h.t11⟩
       · intro hs'; rw [hs] at hs'; cases hs'
       · intro _ j hj
         simp only [List.length_modify] at hj
@@ -672,7 +712,8 @@ theorem attach_TR (w : World) (k : Nat) (h : TR w) (hs : w.started = true) :
     · exact h1
 
 theorem evConnect_TR {w w' : World} (h : TR w) (he : evConnect w = some w') : TR w' := by
-  unfold evConnect at he
+  rw [evConnect_eq] at he
+  unfold evConnectHead at he
   split at he
   · cases he
   · rename_i hst
@@ -701,7 +742,18 @@ theorem evConnect_TR {w w' : World} (h : TR w) (he : evConnect w = some w') : TR
                     seq := (startContenders w.now w.seq (w.cont.any fun c => decide (c.kind = Kind.direct)) w.cont w.cont).2,
                     started := true, t0 := w.now, remaining := rem, result := res } := by
       intro rem res hres hres8 hrem
-      refine ⟨?_, ?_, ?_, h.t5a, ?_, ?_, ?_, ?_⟩
+      have ht11 : res ≠ .pending → ∀ k q,
+          phC (startContenders w.now w.seq (w.cont.any fun c => decide (c.kind = Kind.direct)) w.cont w.cont).1 k = some q →
+          isDone q = true ∨ q = .idle := by
+        intro hr k q hq
+        exfalso
+        rcases hres8 with e | e
+        · rw [e] at hr; exact hr (h.t9 hns)
+        · unfold phC at hq
+          cases hc' : (startContenders w.now w.seq (w.cont.any fun c => decide (c.kind = Kind.direct)) w.cont w.cont).1[k]? with
+          | none => rw [hc'] at hq; cases hq
+          | some _ => have := (List.getElem?_eq_some_iff.mp hc').1; omega
+      refine ⟨?_, ?_, ?_, h.t5a, ?_, ?_, ?_, ?_, (fun hs' => by cases hs'), ht11⟩
       rotate_right
       · intro hr hl
         rcases hres8 with e | e
@@ -824,6 +876,67 @@ theorem fold_cancel_listener (l : List Nat) : ∀ (w : World),
       · exact Or.inl h'
     · exact Or.inr ((cancelContender_listener w a).1 h)
 
+/-- "fired, or never started" -/
+def DIat (w : World) (k : Nat) : Prop := ∀ q, phC w.cont k = some q → isDone q = true ∨ q = .idle
+
+theorem DIat_setDone (w : World) (k k' : Nat) (r : Option Err) (x : Nat) (cont : List Contender)
+    (hc : cont = w.cont) :
+    (k' = k ∨ DIat w k') → ∀ q, phC (setPhase cont k (.done r x)) k' = some q → isDone q = true ∨ q = .idle := by
+  intro h q hq
+  subst hc
+  simp only [phC_setPhase] at hq
+  by_cases hkk : k = k'
+  · subst hkk
+    simp only [if_true] at hq
+    cases hc : w.cont[k]? with
+    | none => rw [hc] at hq; cases hq
+    | some c => rw [hc] at hq; simp at hq; subst hq; exact Or.inl rfl
+  · simp only [hkk, if_false] at hq
+    rcases h with h | h
+    · exact absurd h.symm hkk
+    · exact h q hq
+
+/-- cancelling contender `k` fires it (unless it was never started), and un-fires nobody -/
+theorem cancelContender_DI (w : World) (k k' : Nat) (h : k' = k ∨ DIat w k') : DIat (cancelContender w k) k' := by
+  unfold DIat cancelContender
+  split
+  · rw [fireFail_cont]; exact DIat_setDone w k k' _ _ _ (shutdown_cont w) h
+  · rw [fireFail_cont]; exact DIat_setDone w k k' _ _ _ rfl h
+  · rw [fireFail_cont]; exact DIat_setDone w k k' _ _ _ rfl h
+  · rw [fireFail_cont]; exact DIat_setDone w k k' _ _ _ (cancelConnAt_cont w _) h
+  · rename_i h1 h2 h3 h4
+    rcases h with h | h
+    · subst h
+      intro q hq
+      have hq' : phaseOf w k' = some q := hq
+      cases q with
+      | idle => exact Or.inr rfl
+      | listening => exact absurd hq' h1
+      | delayed t => exact absurd hq' (h2 t)
+      | connecting => exact absurd hq' h3
+      | negotiating i => exact absurd hq' (h4 i)
+      | done r x => exact Or.inl rfl
+    · exact h
+
+theorem fold_cancel_DI (l : List Nat) : ∀ (w : World),
+    (∀ k', k' ∈ l ∨ DIat w k') → ∀ k' q, phC (l.foldl cancelContender w).cont k' = some q → isDone q = true ∨ q = .idle := by
+  induction l with
+  | nil =>
+    intro w h k' q hq
+    rcases h k' with h' | h'
+    · cases h'
+    · exact h' q hq
+  | cons a rest ih =>
+    intro w h
+    simp only [List.foldl_cons]
+    apply ih
+    intro k'
+    rcases h k' with h' | h'
+    · rcases List.mem_cons.mp h' with e | e
+      · exact Or.inr (cancelContender_DI w a k' (Or.inl e))
+      · exact Or.inl e
+    · exact Or.inr (cancelContender_DI w a k' (Or.inr h'))
+
 theorem fireDeadline_TR (w : World) (h : TR w) (hs : w.started = true) : TR (fireDeadline w) := by
   unfold fireDeadline
   simp only []
@@ -833,7 +946,29 @@ theorem fireDeadline_TR (w : World) (h : TR w) (hs : w.started = true) : TR (fir
   · have h2 := foldl_TR0 cancelContender (fun w k h => cancelContender_TR k h) w.remaining _ h1
     split
     · exact h2
-    · refine ⟨h2.t0, h2.t3, h2.t4, h2.t5a, h2.t5b, h2.t5d, ?_, ?_⟩
+    · have hst2 : (List.foldl cancelContender { w with deadline := none } w.remaining).started = true := by
+        rw [(foldl_good cancelContender cancelContender_good w.remaining { w with deadline := none }).shr.started]
+        exact hs
+      refine ⟨h2.t0, h2.t3, h2.t4, h2.t5a, h2.t5b, h2.t5d, ?_, ?_,
+        (fun hs' => by rw [hst2] at hs'; cases hs'), ?_⟩
+      rotate_right
+      · intro _ k0 q0 hq0
+        refine fold_cancel_DI w.remaining _ ?_ k0 q0 hq0
+        intro k'
+        by_cases hk : k' < w.cont.length
+        · rcases h.t3 hs k' hk with h' | ⟨_, p, hp, hd⟩
+          · exact Or.inl h'
+          · refine Or.inr ?_
+            intro q hq
+            have hq' : phC w.cont k' = some q := hq
+            rw [hp] at hq'; cases hq'; exact Or.inl hd
+        · refine Or.inr ?_
+          intro q hq
+          have hq' : phC w.cont k' = some q := hq
+          unfold phC at hq'
+          cases hc : w.cont[k']? with
+          | none => rw [hc] at hq'; cases hq'
+          | some _ => exact absurd (List.getElem?_eq_some_iff.mp hc).1 hk
       · intro i hi; simp at hi
       · intro _
         apply fold_cancel_listener
@@ -866,7 +1001,7 @@ theorem fireTimer_TR (w : World) (t : Timer × TimerId) (h : TR w)
   · rename_i k
     split
     · rename_i hph
-      exact TR_setPhase_inactive .connecting h (q := .delayed t.1) hph (by intro i; simp) rfl (by simp) (by simp)
+      exact TR_setPhase_inactive .connecting h (q := .delayed t.1) hph (by intro i; simp) rfl (by simp) (by simp) (by simp)
     · exact h
   · split
     · rename_i hdl
@@ -923,7 +1058,8 @@ theorem TR_step {w : World} (hI : WInv w) (hP : PortInv w) (hK : K w) (h : TR w)
 theorem TR_init (cfg : Cfg) (l : Bool) (d : Nat) (r : List Nat) : TR (initWorld cfg l d r) := by
   refine ⟨?_, by intro h; simp [initWorld] at h, Or.inl rfl, by intro i c h; simp [initWorld] at h,
     by intro i c k h; simp [initWorld] at h, by intro i c k h; simp [initWorld] at h,
-    by intro i h; simp [initWorld] at h, by intro h; simp [initWorld] at h⟩
+    by intro i h; simp [initWorld] at h, by intro h; simp [initWorld] at h, by intro _; rfl,
+    by intro h; simp [initWorld] at h⟩
   intro _ k
   unfold attC
   simp only [initWorld]
@@ -1069,6 +1205,19 @@ theorem W8_run {w : World} (hI : WInv w) (h : W8 w) (evs : List Event) : W8 (run
   induction evs generalizing w with
   | nil => exact h
   | cons e rest ih => exact ih (WInv_step hI e) (W8_step hI h e)
+
+/-- when `connect()` has fired — either way — no negotiation is pending any more -/
+theorem TR_no_pending_any {w : World} (h : TR w) (hres : w.result ≠ .pending) (j : Nat) (c : Conn)
+    (hc : w.conns j = some c) : c.negD ≠ .pending := by
+  intro hp
+  cases ho : c.owner with
+  | none =>
+    have hm := h.t5a j c hc hp ho
+    rcases h.t4 with h' | h'
+    · rw [h'] at hm; cases hm
+    · rcases h.t11 hres 0 _ h' with h1 | h1 <;> simp [isDone] at h1
+  | some k =>
+    rcases h.t11 hres k _ (h.t5b j c k hc hp ho) with h1 | h1 <;> simp [isDone] at h1
 
 /-- when `connect()` has succeeded no negotiation is pending any more -/
 theorem TR_no_pending {w : World} (h : TR w) {i : Nat} (hres : w.result = .ok i) (j : Nat) (c : Conn)
